@@ -36,7 +36,7 @@ func runNoCheck(c Case) *ev.Verdict {
 				r.AddEntry(st.Op.NI, op)
 			}
 		}); p != "" {
-			v.Fail("C08/panic:"+l1.TopFrame(p), "%s panicked with reference checks disabled: %s", st.Op, p)
+			v.Fail(l1.Sig("C08", p), "%s panicked with reference checks disabled: %s", st.Op, p)
 			return v
 		}
 	}
@@ -47,7 +47,7 @@ func runNoCheck(c Case) *ev.Verdict {
 	}
 	var ferr error
 	if p := l1.Protect(func() { ferr = r.Flush(c.NoCheck) }); p != "" {
-		v.Fail("C08/panic:"+l1.TopFrame(p), "Flush(%v) panicked with reference checks disabled: %s", c.NoCheck, p)
+		v.Fail(l1.Sig("C08", p), "Flush(%v) panicked with reference checks disabled: %s", c.NoCheck, p)
 		return v
 	}
 	if ferr != nil {
